@@ -13,6 +13,7 @@ func init() {
 		n := 0
 		for _, it := range []struct{ lean, fn string }{
 			{"send", "client.Send"},
+			{"sendOne", "client.send"},
 			{"start", "client.Start"},
 			{"stop", "client.Stop"},
 			{"loopWrite", "client.loopWrite"},
